@@ -565,6 +565,11 @@ func declMenu(u *identUse) []string {
 		}
 		out = append(out, fmt.Sprintf("type %s int\n", n), fmt.Sprintf("type %s struct{ F int }\n", n), fmt.Sprintf("type %s interface{ M() }\n", n),
 			fmt.Sprintf("const %s = 1\n", n), fmt.Sprintf("const %s = \"s\"\n", n), fmt.Sprintf("func %s() {}\n", n))
+		// one named type per kind of underlying type
+		for _, ut := range []string{"complex128", "float32", "string", "bool", "uint8", "[]int", "*int", "map[string]int", "chan int", "func()", "[2]int"} {
+			out = append(out, fmt.Sprintf("type %s %s\n", n, ut))
+		}
+		out = append(out, fmt.Sprintf("IMPORT unsafe\ntype %s unsafe.Pointer\n", n))
 	}
 	return out
 }
@@ -575,8 +580,10 @@ var (
 	srcImporterMu   sync.Mutex
 )
 
+func initSrcImporter() { srcImporter = importer.ForCompiler(token.NewFileSet(), "source", nil) }
+
 func typeCheck(src string) (bool, string) {
-	srcImporterOnce.Do(func() { srcImporter = importer.ForCompiler(token.NewFileSet(), "source", nil) })
+	srcImporterOnce.Do(initSrcImporter)
 	fset := token.NewFileSet()
 	f, err := parser.ParseFile(fset, "cand.go", src, parser.ParseComments)
 	if err != nil {
@@ -775,7 +782,9 @@ func realise(model map[string]interface{}, spec *lazySpecView, rootPath, categor
 			for i := range names {
 				d := menus[i][idx[i]]
 				if strings.HasPrefix(d, "IMPORT ") {
-					fmt.Fprintf(&imports, "import %q\n", strings.TrimPrefix(d, "IMPORT "))
+					path, rest, _ := strings.Cut(strings.TrimPrefix(d, "IMPORT "), "\n")
+					fmt.Fprintf(&imports, "import %q\n", path)
+					decls.WriteString(rest)
 				} else {
 					decls.WriteString(d)
 				}
